@@ -1,53 +1,18 @@
-/- The tie by translation: the definitions generated from /repo's Python source (MdpaxV/Gen/Code.lean, rewritten by
-   harness/translate.py on every run) equal the hand-written model for ALL inputs of the documented domain.
-   If the source changes semantically these proofs stop building. -/
-import MdpaxV.Gen.Code
-import MdpaxV.Model.Batch
+/- The tie by translation, configuration: the definitions generated from /repo's Python source (MdpaxV/Gen/Config.lean, rewritten by
+   harness/translate.py on every run of C20) equal the hand-written model for ALL inputs. -/
+import MdpaxV.Gen.Config
 import MdpaxV.Model.Config
+import MdpaxV.Model.Solvers
 import Mathlib.Tactic.Ring
 import Mathlib.Tactic.IntervalCases
 import Mathlib.Tactic.Linarith
 import Mathlib.Tactic.NormNum
 import Mathlib.Algebra.Order.Ring.Int
-
+import Mathlib.Algebra.Order.Ring.Rat
+import Mathlib.Algebra.Order.Field.Basic
 
 namespace MdpaxV.GenTie
 open MdpaxV
-
-theorem fdiv_natCast (a b : Nat) : Int.fdiv (a : Int) (b : Int) = ((a / b : Nat) : Int) := by
-  rw [Int.fdiv_eq_ediv_of_nonneg _ (Int.natCast_nonneg b)]
-  exact (Int.natCast_ediv a b).symm
-
-/-- **`BatchProcessor.__init__` as written in /repo = the model** (`spd`, `bsz`, `nb`, `npad`), for every number of states,
-    every maximum batch size and every device count ≥ 1 -/
-theorem batchInit_eq_model (c : BatchCfg) (sd : Int) (hd : 1 ≤ c.dev) :
-    Gen.batchInit c.n sd c.maxbs c.dev = ((c.dev : Int), (bsz c : Int), (nb c : Int), npad c) := by
-  have hspd : Int.fdiv (((c.n : Int) + (c.dev : Int)) - 1) (c.dev : Int) = ((spd c : Nat) : Int) := by
-    have : ((c.n : Int) + (c.dev : Int)) - 1 = ((c.n + c.dev - 1 : Nat) : Int) := by omega
-    rw [this, fdiv_natCast]; rfl
-  have hbsz : (if (c.dev : Int) = 1 then min (c.maxbs : Int) (c.n : Int) else min (c.maxbs : Int) (max 64 ((spd c : Nat) : Int)))
-      = ((bsz c : Nat) : Int) := by
-    unfold bsz
-    by_cases h1 : c.dev = 1
-    · have : (c.dev : Int) = 1 := by exact_mod_cast h1
-      rw [if_pos this, if_pos h1]; push_cast; rfl
-    · have : ¬ (c.dev : Int) = 1 := by exact_mod_cast h1
-      rw [if_neg this, if_neg h1]; push_cast; rfl
-  have hnb : (if ((spd c : Nat) : Int) ≤ ((bsz c : Nat) : Int) then (1 : Int)
-      else Int.fdiv ((((spd c : Nat) : Int) + ((bsz c : Nat) : Int)) - 1) ((bsz c : Nat) : Int)) = ((nb c : Nat) : Int) := by
-    unfold nb
-    by_cases h1 : spd c ≤ bsz c
-    · have : ((spd c : Nat) : Int) ≤ ((bsz c : Nat) : Int) := by exact_mod_cast h1
-      rw [if_pos this, if_pos h1]; rfl
-    · have hn : ¬ ((spd c : Nat) : Int) ≤ ((bsz c : Nat) : Int) := by exact_mod_cast h1
-      rw [if_neg hn, if_neg h1]
-      have : (((spd c : Nat) : Int) + ((bsz c : Nat) : Int)) - 1 = ((spd c + bsz c - 1 : Nat) : Int) := by omega
-      rw [this, fdiv_natCast]
-  simp only [Gen.batchInit]
-  rw [hspd, hbsz, hnb]
-  simp only [npad, slots]
-  push_cast
-  rfl
 
 /-- **`get_convergence_format` as written in /repo = the model's `decimalPlaces`**, for every ⌊log10 ε⌋ and `max_decimals` -/
 theorem decimalPlaces_eq_model (e : Int) (m : Nat) : Gen.decimalPlaces e (m : Int) = MdpaxV.decimalPlaces e m := by
@@ -83,5 +48,27 @@ theorem loguruLevel_eq (isInt : Bool) (v : Int) : Gen.loguruLevel isInt v = Mdpa
       have h4 : v ≤ 4 := by omega
       simp only [Bool.not_true, Bool.false_eq_true, if_false, if_neg h]
       interval_cases v <;> simp [levelName]
+
+/-- **the convergence thresholds as written in /repo = the model's**: the span and the max_diff entry of
+    `ValueIteration._setup_convergence_testing` (inherited unchanged by policy iteration and semi-asynchronous value iteration —
+    the translator checks that neither overrides it) are the same function, and on 0 ≤ γ ≤ 1 it is the model loop's `threshold` -/
+theorem threshold_code_eq (γ ε : Rat) (h0 : 0 ≤ γ) (h1 : γ ≤ 1) :
+    threshold γ ε = some (Gen.thresholdSpan ε γ) ∧ Gen.thresholdMaxDiff ε γ = Gen.thresholdSpan ε γ := by
+  refine ⟨?_, rfl⟩
+  unfold threshold Gen.thresholdSpan
+  by_cases e1 : γ = 1
+  · subst e1; simp
+  · by_cases e0 : γ = 0
+    · subst e0; simp
+    · have : 0 < γ ∧ γ < 1 := ⟨lt_of_le_of_ne h0 (Ne.symm e0), lt_of_le_of_ne h1 e1⟩
+      simp [e1, e0, this]
+
+/-- … and the configuration-level `thresholdOf` (all five solver classes) -/
+theorem thresholdOf_code_eq (k : SolverKind) (c : SolverCfg) :
+    thresholdOf k c = match k with
+      | .vi | .pi | .semi => Gen.thresholdSpan c.eps c.gamma
+      | .rvi => Gen.threshold_rvi c.eps c.gamma
+      | .periodic => Gen.threshold_periodic c.eps c.gamma := by
+  cases k <;> simp [thresholdOf, Gen.thresholdSpan, Gen.threshold_rvi, Gen.threshold_periodic]
 
 end MdpaxV.GenTie
